@@ -8,7 +8,7 @@
 //! unary/binary/ternary/concatenation expressions, constant and dynamic
 //! index / bit select (in-range assumed, recorded as an assumption), struct
 //! member reads/writes through part_select.
-//! Not supported: instances, functions, system functions, struct/array
+//! Not supported: functions, system functions, instances inside generate blocks, struct/array
 //! literals, `as` to/from floats, `**` with a non-constant operand, variables
 //! written by more than one process, 4-state literals.
 
@@ -54,6 +54,8 @@ enum Driver {
     Ff(usize),
     /// several comb processes, each driving its own bits (the analyzer rejects overlapping drivers)
     MultiComb,
+    /// output connection of the module instance at this declaration index
+    Inst(usize),
     Multi,
 }
 
@@ -69,6 +71,33 @@ pub struct Builder<'a> {
     comb_done: HashMap<usize, Env>,
     comb_writers: HashMap<VarId, Vec<usize>>,
     comb_busy: HashSet<usize>,
+    n: usize,
+    /// hierarchical prefix of this module instance ("" for the top, "u." for instance u, "u.v." ...)
+    prefix: String,
+    /// terms the parent connected to this instance's input ports (None for the top module)
+    in_terms: Option<HashMap<VarId, ChildIn>>,
+    inst_done: HashMap<usize, Env>,
+    inst_busy: HashSet<usize>,
+    child_states: Vec<J>,
+    child_ffs: Vec<J>,
+    depth: usize,
+}
+
+#[derive(Clone)]
+struct ChildIn {
+    t: T,
+    /// name of the top-level input port when the connection is exactly that port
+    top_port: Option<String>,
+}
+
+struct Built {
+    inputs: Vec<J>,
+    outputs: Vec<(VarId, J)>,
+    out_terms: HashMap<VarId, T>,
+    states: Vec<J>,
+    ffs: Vec<J>,
+    defs: Vec<(String, usize, String)>,
+    assumptions: Vec<String>,
     n: usize,
 }
 
@@ -203,12 +232,27 @@ impl<'a> Builder<'a> {
         };
         match kind {
             VarKind::Param | VarKind::Const => return self.const_value(id),
-            VarKind::Input => return Ok(T { s: format!("in_{}", sanitize(&name)), w }),
+            VarKind::Input => {
+                return match &self.in_terms {
+                    None => Ok(T { s: format!("in_{}", sanitize(&name)), w }),
+                    Some(m) => {
+                        let c = m.get(id).ok_or_else(|| format!("{name}: input port of an instance is not connected"))?;
+                        if c.t.w != w {
+                            return Err(format!("{name}: connection width {} vs port width {w}", c.t.w));
+                        }
+                        Ok(c.t.clone())
+                    }
+                };
+            }
             VarKind::Inout => return Err("inout port".into()),
             _ => {}
         }
         match *self.driver.get(id).unwrap_or(&Driver::None) {
-            Driver::Ff(_) => Ok(T { s: format!("st_{}", sanitize(&name)), w }),
+            Driver::Ff(_) => Ok(T { s: self.state_smt(&name), w }),
+            Driver::Inst(d) => {
+                let r = self.eval_inst(d)?;
+                r.get(id).cloned().ok_or_else(|| format!("{name}: instance did not drive it"))
+            }
             Driver::Comb(d) => {
                 let r = self.eval_comb(d)?;
                 r.get(id).cloned().ok_or_else(|| format!("{name}: comb process did not assign it"))
@@ -230,6 +274,114 @@ impl<'a> Builder<'a> {
             Driver::Multi => Err(format!("{name}: written by more than one process")),
             Driver::None => Err(format!("{name}: read but never driven")),
         }
+    }
+
+    fn state_smt(&self, name: &str) -> String {
+        if self.prefix.is_empty() {
+            format!("st_{}", sanitize(name))
+        } else {
+            format!("st_{}__i", sanitize(&format!("{}{}", self.prefix, name)))
+        }
+    }
+
+    /// terms of everything a module instance drives in this module
+    fn eval_inst(&mut self, d: usize) -> R<Env> {
+        if let Some(e) = self.inst_done.get(&d) {
+            return Ok(e.clone());
+        }
+        if !self.inst_busy.insert(d) {
+            return Err("combinational path through a module instance back into itself".into());
+        }
+        if self.depth > 6 {
+            return Err("instance nesting deeper than 6".into());
+        }
+        let Declaration::Inst(inst) = &self.m.declarations[d] else {
+            return Err("not an instance".into());
+        };
+        let inst = inst.as_ref().clone();
+        let air::Component::Module(child) = inst.component.as_ref() else {
+            return Err("instance of a non-module component".into());
+        };
+        if !inst.hierarchy.is_empty() {
+            return Err("instance inside a generate block".into());
+        }
+        let env0 = Env::new();
+        let mut ins: HashMap<VarId, ChildIn> = HashMap::new();
+        for i in &inst.inputs {
+            let Some(e) = i.single() else {
+                return Err("element-wise instance input connection".into());
+            };
+            let cv = child.variables.get(&i.id).ok_or("instance input: unknown child port")?;
+            let w = cv.r#type.total_width().ok_or("child port width")? * cv.r#type.array.total().ok_or("child port array")?;
+            if w == 0 {
+                continue;
+            }
+            let v = self.expr(e, &env0, false)?;
+            let t = self.resize(&v.t, w, v.signed);
+            // a bare top-level input port keeps its identity (clock / reset wiring)
+            let top_port = match e {
+                Expression::Term(f) => match f.as_ref() {
+                    Factor::Variable(id, idx, sel, _) if idx.0.is_empty() && sel.is_empty() => {
+                        let vi = self.info(id)?;
+                        if vi.kind == VarKind::Input {
+                            match &self.in_terms {
+                                None => Some(vi.name.clone()),
+                                Some(m) => m.get(id).and_then(|c| c.top_port.clone()),
+                            }
+                        } else {
+                            None
+                        }
+                    }
+                    _ => None,
+                },
+                _ => None,
+            };
+            ins.insert(i.id, ChildIn { t, top_port });
+        }
+        let iname = veryl_parser::resource_table::get_str_value(inst.name).ok_or("instance name")?;
+        let prefix = format!("{}{}.", self.prefix, iname);
+        let built = build_module(child, &prefix, Some(ins), self.n, self.depth + 1)?;
+        self.n = built.n;
+        self.defs.extend(built.defs);
+        self.assumptions.extend(built.assumptions);
+        self.child_states.extend(built.states);
+        self.child_ffs.extend(built.ffs);
+        // outputs: child port value -> destination list (a concatenation when several)
+        let mut env = Env::new();
+        let ids: Vec<VarId> = self.driver.iter().filter(|(_, dr)| **dr == Driver::Inst(d)).map(|(id, _)| *id).collect();
+        for id in ids {
+            let w = self.flat_w(&id)?;
+            env.insert(id, self.zeros(w));
+        }
+        for o in &inst.outputs {
+            if o.dst.is_empty() {
+                continue;
+            }
+            let Some(src) = built.out_terms.get(&o.id).cloned() else {
+                return Err("instance output: child port has no term".into());
+            };
+            let mut widths = Vec::new();
+            for dd in &o.dst {
+                widths.push(self.dst_width(dd)?);
+            }
+            let total: usize = widths.iter().sum();
+            if total == 0 {
+                continue;
+            }
+            let src = self.resize(&src, total, false);
+            let mut lo = 0;
+            for (dd, w) in o.dst.iter().zip(widths.iter()).rev() {
+                if *w == 0 {
+                    continue;
+                }
+                let slice = self.extract(&src, lo + w - 1, lo);
+                self.write(dd, &slice, &mut env, false)?;
+                lo += w;
+            }
+        }
+        self.inst_busy.remove(&d);
+        self.inst_done.insert(d, env.clone());
+        Ok(env)
     }
 
     fn eval_comb(&mut self, d: usize) -> R<Env> {
@@ -341,7 +493,9 @@ impl<'a> Builder<'a> {
         match f {
             Factor::Value(ct) => {
                 let val = ct.get_value().map_err(|_| "non-numeric value")?.clone();
-                let w = ct.r#type.total_width().unwrap_or(val.width()).max(1);
+                // a folded constant subexpression carries its value at the CONTEXT width it was evaluated in,
+                // which can exceed the self-determined width recorded in its type (`~3'h0` in a 4-bit context)
+                let w = ct.r#type.total_width().unwrap_or(val.width()).max(val.width()).max(1);
                 let t = self.value_term(&val, w)?;
                 Ok(V { t, signed: val.signed() })
             }
@@ -664,7 +818,7 @@ impl<'a> Builder<'a> {
             (i.name.clone(), i.sw * i.elems)
         };
         if ff {
-            Ok(T { s: format!("st_{}", sanitize(&name)), w })
+            Ok(T { s: self.state_smt(&name), w })
         } else {
             Ok(self.zeros(w))
         }
@@ -864,6 +1018,17 @@ fn packed_shape(t: &air::Type, total_bits: usize) -> (usize, usize) {
 }
 
 pub fn build(m: &air::Module) -> R<J> {
+    let b = build_module(m, "", None, 0, 0)?;
+    Ok(json!({
+        "inputs": b.inputs, "outputs": b.outputs.into_iter().map(|(_, j)| j).collect::<Vec<_>>(),
+        "states": b.states, "ffs": b.ffs,
+        "defs": b.defs.iter().map(|(n, w, s)| json!([n, w, s])).collect::<Vec<_>>(),
+        "assumptions": b.assumptions,
+    }))
+}
+
+fn build_module(m: &air::Module, prefix: &str, in_terms: Option<HashMap<VarId, ChildIn>>, n0: usize, depth: usize) -> R<Built> {
+    let is_child = in_terms.is_some();
     let mut b = Builder {
         m,
         ctx: veryl_analyzer::Context::default(),
@@ -874,7 +1039,14 @@ pub fn build(m: &air::Module) -> R<J> {
         comb_done: HashMap::new(),
         comb_writers: HashMap::new(),
         comb_busy: HashSet::new(),
-        n: 0,
+        n: n0,
+        prefix: prefix.to_string(),
+        in_terms,
+        inst_done: HashMap::new(),
+        inst_busy: HashSet::new(),
+        child_states: vec![],
+        child_ffs: vec![],
+        depth,
     };
     let mut ids: Vec<&air::Variable> = m.variables.values().collect();
     ids.sort_by_key(|v| v.id);
@@ -952,7 +1124,15 @@ pub fn build(m: &air::Module) -> R<J> {
         let (stmts, dr) = match d {
             Declaration::Comb(c) => (&c.statements, Driver::Comb(i)),
             Declaration::Ff(f) => (&f.statements, Driver::Ff(i)),
-            Declaration::Inst(_) => return Err("module instance".into()),
+            Declaration::Inst(inst) => {
+                for o in &inst.outputs {
+                    for dd in &o.dst {
+                        let e = b.driver.entry(dd.id).or_insert(Driver::None);
+                        *e = if *e == Driver::None || *e == Driver::Inst(i) { Driver::Inst(i) } else { Driver::Multi };
+                    }
+                }
+                continue;
+            }
             Declaration::External(_) => return Err("external component".into()),
             Declaration::Initial(_) | Declaration::Final(_) | Declaration::Unsupported(_) | Declaration::Null => continue,
         };
@@ -981,8 +1161,17 @@ pub fn build(m: &air::Module) -> R<J> {
     for (i, d) in m.declarations.iter().enumerate() {
         let Declaration::Ff(f) = d else { continue };
         let clk = b.info(&f.clock.id)?;
-        let clk_name = clk.name.clone();
         let negedge = clk.clock_negedge;
+        if clk.kind != VarKind::Input {
+            return Err("clock is not an input port".into());
+        }
+        let clk_name = match &b.in_terms {
+            None => clk.name.clone(),
+            Some(m) => m
+                .get(&f.clock.id)
+                .and_then(|c| c.top_port.clone())
+                .ok_or("instance clock is not connected to a top-level port")?,
+        };
         let (rst_term, rst_json) = match &f.reset {
             Some(r) => {
                 let ri = b.info(&r.id)?;
@@ -990,16 +1179,20 @@ pub fn build(m: &air::Module) -> R<J> {
                     return Err("reset is not an input port".into());
                 }
                 let level = if ri.reset_active_low { "#b0" } else { "#b1" };
+                let (term, port) = match &b.in_terms {
+                    None => (format!("in_{}", sanitize(&ri.name)), ri.name.clone()),
+                    Some(m) => {
+                        let c = m.get(&r.id).ok_or("instance reset is not connected")?;
+                        (c.t.s.clone(), c.top_port.clone().ok_or("instance reset is not connected to a top-level port")?)
+                    }
+                };
                 (
-                    format!("(= in_{} {})", sanitize(&ri.name), level),
-                    json!({"port": ri.name, "active_low": ri.reset_active_low, "sync": ri.reset_sync}),
+                    format!("(= {} {})", term, level),
+                    json!({"port": port, "active_low": ri.reset_active_low, "sync": ri.reset_sync}),
                 )
             }
             None => ("false".to_string(), J::Null),
         };
-        if clk.kind != VarKind::Input {
-            return Err("clock is not an input port".into());
-        }
         let mut env = Env::new();
         let stmts = f.statements.clone();
         b.exec(&stmts, &mut env, Some(&rst_term))?;
@@ -1008,7 +1201,7 @@ pub fn build(m: &air::Module) -> R<J> {
             if b.driver.get(&id) != Some(&Driver::Ff(i)) {
                 return Err("register written by several processes".into());
             }
-            regs.push(b.info(&id)?.name.clone());
+            regs.push(format!("{}{}", b.prefix, b.info(&id)?.name));
             next.insert(id, t);
         }
         regs.sort();
@@ -1017,9 +1210,16 @@ pub fn build(m: &air::Module) -> R<J> {
 
     // outputs
     let mut outputs = Vec::new();
+    let mut out_terms = HashMap::new();
     let mut inputs = Vec::new();
     let mut states = Vec::new();
     let env0 = Env::new();
+    // instances whose outputs nobody reads still own state
+    for (i, d) in m.declarations.iter().enumerate() {
+        if matches!(d, Declaration::Inst(_)) {
+            b.eval_inst(i)?;
+        }
+    }
     for v in &ids {
         let Some(i) = b.vars.get(&v.id) else { continue };
         let (name, path, w, sw, elems, is_clock, is_reset) =
@@ -1029,22 +1229,22 @@ pub fn build(m: &air::Module) -> R<J> {
                                                  "clock": is_clock, "reset": is_reset})),
             VarKind::Output => {
                 let t = b.read_var(&v.id, &env0, false)?;
-                outputs.push(json!({"name": name, "path": path, "width": w, "term": t.s}));
+                outputs.push((v.id, json!({"name": name, "path": path, "width": w, "term": t.s})));
+                out_terms.insert(v.id, t);
             }
             VarKind::Inout => return Err("inout port".into()),
             _ => {}
         }
         if let Some(Driver::Ff(_)) = b.driver.get(&v.id) {
             let nt = next.get(&v.id).cloned().ok_or("register without next state")?;
-            states.push(json!({"name": name, "smt": format!("st_{}", sanitize(&name)), "width": w,
+            states.push(json!({"name": format!("{}{}", b.prefix, name), "smt": b.state_smt(&name), "width": w,
                                "elem_width": sw, "elems": elems, "next": nt.s}));
         }
     }
-    Ok(json!({
-        "inputs": inputs, "outputs": outputs, "states": states, "ffs": ff_meta,
-        "defs": b.defs.iter().map(|(n, w, s)| json!([n, w, s])).collect::<Vec<_>>(),
-        "assumptions": b.assumptions,
-    }))
+    let _ = is_child;
+    states.extend(b.child_states.drain(..));
+    ff_meta.extend(b.child_ffs.drain(..));
+    Ok(Built { inputs, outputs, out_terms, states, ffs: ff_meta, defs: b.defs, assumptions: b.assumptions, n: b.n })
 }
 
 pub fn dump_all(ir: &air::Ir, only: Option<&str>) -> J {
